@@ -39,9 +39,10 @@ def archetypes():
         hostkeys={'ssh-ed25519': peers.ed25519_blob(), 'rsa-sha2-256': peers.rsa_blob(2048)})
     A['gexfirst'] = peers.ServerCfg(
         banner=b'SSH-2.0-Generic_2.1',
-        kexinit={'kex': ['diffie-hellman-group-exchange-sha256', 'ecdh-sha2-nistp256'], 'key': ['ssh-rsa', 'ssh-ed25519'],
+        kexinit={'kex': ['diffie-hellman-group-exchange-sha256', 'ecdh-sha2-nistp256'], 'key': ['ssh-rsa', 'ssh-ed25519', 'ssh-ed25519-cert-v01@openssh.com'],
                  'enc': ['aes128-ctr'], 'mac': ['hmac-sha2-512'], 'comp': ['none']},
-        hostkeys={'ssh-rsa': peers.rsa_blob(4096), 'ssh-ed25519': peers.ed25519_blob()},
+        hostkeys={'ssh-rsa': peers.rsa_blob(4096), 'ssh-ed25519': peers.ed25519_blob(),
+                  'ssh-ed25519-cert-v01@openssh.com': peers.cert_blob('ed25519', ('ecdsa', 521))},      # a host certificate signed by an ECDSA CA
         gex={'style': 'strict', 'moduli': [2048, 4096, 8192]})
     return A
 
@@ -156,6 +157,29 @@ def packet_faults(d, rnd, tier):
     return out
 
 
+def ssh1_faults(d, rnd, tier):
+    """Faults for one SSH-1 packet that keep its framing and CRC valid: the public-key message cut short at every field boundary
+    (and, thorough, at every offset), another message type, bit counts that promise more than is there."""
+    from harness import wire as _w
+    L = struct.unpack('>I', d[:4])[0]
+    pad = 8 - L % 8
+    body = d[4 + pad:4 + pad + L - 4]
+    ptype, data = body[0], body[1:]
+    out = []
+    cuts = range(0, len(data)) if tier == 'thorough' else sorted({0, 1, 7, 8, 11, 12, 13, 14, 15, len(data) // 2, len(data) - 13, len(data) - 12, len(data) - 8, len(data) - 4, len(data) - 1})
+    for k in cuts:
+        if 0 <= k < len(data):
+            out.append(('ssh1-short@%d' % k, (lambda _d, k=k: [_w.frame1(ptype, data[:k])])))
+    for t in (ptype + 1, 0, 255):
+        out.append(('ssh1-type=%d' % (t & 0xff), (lambda _d, t=t: [_w.frame1(t & 0xff, data)])))
+    for off in (12, 14):           # the bit counts of the first two multiple-precision integers (after cookie and server key bits)
+        if off + 2 <= len(data):
+            for v in (0, 0xffff, 7):
+                out.append(('ssh1-bits@%d=%d' % (off, v), (lambda _d, off=off, v=v: [_w.frame1(ptype, data[:off] + struct.pack('>H', v) + data[off + 2:])])))
+    out.append(('ssh1-trailing', lambda _d: [_w.frame1(ptype, data + b'\x00' * 9)]))
+    return out
+
+
 def string_offsets(d):
     """Offsets (within the framed packet) of plausible uint32 length fields of the payload's top-level strings."""
     res = []
@@ -251,6 +275,8 @@ def build(tier, rnd):
                 faults = line_faults(data, rnd, tier)
             elif kind in ('eof', 'text'):
                 continue
+            elif kind == 'pkm':
+                faults = ssh1_faults(data, rnd, tier) + [f for f in packet_faults(data, rnd, tier) if f[0] in ('eof', 'stall', 'reset', 'random', 'random+eof') or f[0].startswith('trunc@')]
             else:
                 faults = packet_faults(data, rnd, tier)
             if tier == 'quick' and n > 6:
@@ -267,6 +293,21 @@ def build(tier, rnd):
             c['debug'] = dbg
             scs.append(mk(c))
             meta.append((name, 'debug x%d' % dbg, None, cfg, True))
+        if role == 'server' and cfg.get('ssh1') is None:
+            # debug messages first, then something that is not a KEXINIT (its body looks like one): skipping debug messages must not
+            # waive the check of what follows them
+            for dbg in (1, 2):
+                for newtype in (21, 2, 53):
+                    c = Cfg(cfg)
+                    c['debug'] = dbg
+
+                    def mut(n, kind, idx, data, newtype=newtype):
+                        if n == 1 and kind == 'kexinit':
+                            return [data[:5] + bytes([newtype]) + data[6:]]
+                        return [data]
+                    c['mutate'] = mut
+                    scs.append(mk(c))
+                    meta.append((name, 'conn1/kexinit#d/debug x%d+type=%d' % (dbg, newtype), (1, 'kexinit'), cfg, True))
         for k in (1, 2, 3):
             c = Cfg(cfg)
             c['prebanner'] = [b'Welcome line %d' % i for i in range(k)]
@@ -497,6 +538,8 @@ def must_fail_handshake(what, point):
         return True
     if point[1] == 'kexinit' and f.startswith('shortpayload@'):
         return True
+    if point[1] == 'kexinit' and f.split('+')[-1].startswith('type=') and f.split('=')[-1] not in ('20', '4'):
+        return True         # whatever arrived in the place of the KEXINIT was not a KEXINIT
     return False
 
 
@@ -509,12 +552,16 @@ def fault_class(what):
     w = re.sub(r'randmut\d+', 'randmut', w)
     w = re.sub(r'trunc@\d+', 'trunc', w)
     w = re.sub(r'shortpayload@\d+', 'shortpayload', w)
+    w = re.sub(r'ssh1-short@\d+', 'ssh1-short', w)
+    w = re.sub(r'ssh1-bits@\d+=\d+', 'ssh1-bits', w)
+    w = re.sub(r'ssh1-type=\d+', 'ssh1-type', w)
     w = re.sub(r'strlen@\d+=\d+', 'strlen', w)
     w = re.sub(r'strlen@\d+=huge', 'strlen=huge', w)
     w = re.sub(r'strbyte@\d+/(first|last)=', 'strbyte=', w)
     w = re.sub(r'plen=\d+', 'plen', w)
     w = re.sub(r'padlen=\d+', 'padlen', w)
     w = re.sub(r'type=\d+', 'type', w)
+    w = re.sub(r'#d/debug x\d', '/after-debug', w)
     return 'fault=' + w.replace(' ', '')
 
 
